@@ -10,6 +10,7 @@ import XzVerif.Proofs.GoSrcEnc
 import XzVerif.Proofs.GoSrcTreeEnc
 import XzVerif.Proofs.GoSrcLen
 import XzVerif.Proofs.GoSrcDist
+import XzVerif.Proofs.GoSrcLit
 /-
   C02 — Everything the xz writer emits is a valid .xz file for other implementations.
 
@@ -262,6 +263,25 @@ theorem C02_source_length_and_distance_encoders (fuel : Nat) (g : GoSrc.T_rangeE
       (by omega) hL (by omega),
    fun lc l ps hl => GoSrcP.lengthCodec_Encode_refuses fuel lc g l ps hl,
    fun dc dist l dr => GoSrcP.distCodec_Encode_refines fuel dc g e Lim dist l tbl rel rest htbl dr hcl hL hfuel⟩
+
+/-- lzma/literalcodec.go from the source: `literalCodec.Encode` (the 0x300 probabilities of the literal state as a view
+    `c.probs[k : k+0x300]`, the matched-literal loop with its two exits, the plain loop) runs `litMatchedEnc` /
+    `litPlainEnc` of Codec/Lzma.lean; a literal state outside the slice is exactly Go's slice-bounds panic. -/
+theorem C02_source_literal_encoder (fuel : Nat) (c : GoSrc.T_literalCodec) (g : GoSrc.T_rangeEncoder) (e : Rc.Enc) (Lim : Nat)
+    (s : BitVec 8) (state : BitVec 32) (mtch : BitVec 8) (litState : BitVec 32) (tbl : Tbl) (n : Nat)
+    (rel : GoSrcP.EncRel g e Lim) (rest : e.Rest) (htbl : tbl.ok) (lr : GoSrcP.LitRel c tbl n)
+    (hn : n ≤ 0x300 * 2 ^ 12)
+    (hcl : e.cacheLen + 100 < 2 ^ 62) (hL : Lim < 2 ^ 63) (hfuel : e.cacheLen + 100 ≤ fuel) :
+    (0x300 * (litState.toNat + 1) ≤ n →
+      match GoSrcP.encPathL Lim tbl e (GoSrcP.litPath state.toNat litState.toNat mtch.toNat s.toNat) with
+      | none => ∃ c' g', GoSrc.literalCodec_Encode fuel c g s state mtch litState = Go.Res.ok (Go.Err.named "ErrLimit", c', g')
+      | some (tbl', e') =>
+        ∃ c' g', GoSrc.literalCodec_Encode fuel c g s state mtch litState = Go.Res.ok (Go.Err.nil, c', g')
+          ∧ GoSrcP.EncRel g' e' Lim ∧ e'.Rest ∧ tbl'.ok ∧ e'.cacheLen ≤ e.cacheLen + 8 ∧ GoSrcP.LitRel c' tbl' n) ∧
+    (c.probs.size < 0x300 * (litState.toNat + 1) → litState.toNat < 2 ^ 20 →
+      GoSrc.literalCodec_Encode fuel c g s state mtch litState = Go.Res.panic "slice bounds out of range") :=
+  ⟨fun hls => GoSrcP.literalCodec_Encode_refines fuel c g e Lim s state mtch litState tbl n rel rest htbl lr hls hn hcl hL hfuel,
+   fun h hlt => GoSrcP.literalCodec_Encode_bounds fuel c g s state mtch litState h hlt⟩
 
 /-- the checked path is the codec's path whenever the limit is not hit (`encPath` of Codec/LzmaDec.lean) -/
 theorem C02_source_checked_path (L : Nat) (t : Tbl) (e : Rc.Enc) (π : Path) (t' : Tbl) (e' : Rc.Enc)
